@@ -108,7 +108,7 @@ def stepTemplate (st : TmplSt) (toks : List String) : Option (TmplSt × String) 
           if class31Locked n then some (st, "-1")
           else if !n.flags.class31 || !n.hasVal || v < 0 || v ≥ 2 ^ n.enc.nbits.toNat then some (st, "unsupported")
           else
-            let s' : Subset := { nodes := s.nodes.set i { n with ival := v } }
+            let s' : Subset := { nodes := s.nodes.set i { n with val := n.val.setInt32 v } }
             some ({ st with subsets := st.subsets.set! p s' }, "1")
         | none => some (st, "none")
       | none => some (st, "none")
@@ -123,7 +123,7 @@ def stepTemplate (st : TmplSt) (toks : List String) : Option (TmplSt × String) 
           if isClass31Factor n.desc && n.flags.class31 && !n.expanded && !n.skipped && n.hasVal then
             let v := vs.getD (acc.2 % vs.length) 0
             let v' := v % 2 ^ n.enc.nbits.toNat
-            (acc.1 ++ [{ n with ival := v' }], acc.2 + 1)
+            (acc.1 ++ [{ n with val := n.val.setInt32 v' }], acc.2 + 1)
           else (acc.1 ++ [n], acc.2)
         let (ns, k) := s.nodes.foldl step ([], 0)
         some ({ st with subsets := st.subsets.set! p { nodes := ns } }, s!"{k}")
